@@ -376,6 +376,55 @@ let transport_case (toks : string list) : string =
   | "S" :: _ -> "S b_answered=1 b_latency_ok=1 spin=0 a_content=1 a_value=1"
   | _ -> "BADCASE"
 
+(* ---------------- wire forms (C05, C02) ---------------- *)
+
+let bytes_of_string (s : string) : M.ascii list = List.init (String.length s) (fun i -> ascii_of_int (Char.code s.[i]))
+
+let canon_wire (raw : string) : string =
+  (* status/request line first, the other header lines sorted *)
+  let find_sub s sub = let n = String.length s and m = String.length sub in
+    let rec go i = if i + m > n then None else if String.sub s i m = sub then Some i else go (i + 1) in go 0 in
+  match find_sub raw "\r\n\r\n" with
+  | None -> raw
+  | Some he ->
+    let head = String.sub raw 0 he and body = String.sub raw (he + 4) (String.length raw - he - 4) in
+    let lines = Str.split_delim (Str.regexp "\r\n") head in
+    (match lines with
+     | [] -> raw
+     | l0 :: rest -> String.concat "" (List.map (fun l -> l ^ "\r\n") (l0 :: List.sort compare rest)) ^ "\r\n" ^ body)
+
+let hex_of_string (s : string) : string =
+  if s = "" then "-" else String.concat "" (List.init (String.length s) (fun i -> Printf.sprintf "%02x" (Char.code s.[i])))
+
+let kv_pairs (s : string) : (M.ascii list * M.ascii list) list =
+  if s = "-" then [] else
+    List.map (fun x -> match String.split_on_char '=' x with [ k; v ] -> (bytes_of_hex k, bytes_of_hex v) | _ -> ([], [])) (String.split_on_char ',' s)
+
+let wire_case (toks : string list) : string =
+  match toks with
+  | [ "P"; code; cap; server; location; cookies; body ] ->
+    let hs = [ (bytes_of_string "Connection", bytes_of_string "Keep-Alive") ]
+             @ (if server = "-" then [] else [ (bytes_of_string "Server", bytes_of_hex server) ])
+             @ (if location = "-" then [] else [ (bytes_of_string "Location", bytes_of_hex location) ]) in
+    let cs = List.map (fun (k, v) -> k @ (ascii_of_int 61 :: v)) (kv_pairs cookies) in
+    (match M.put_on_wire (nat_of_int (int_of_string cap)) (n_of_int (int_of_string code)) hs cs (bytes_of_hex body) with
+     | M.Emitted (b, n) -> Printf.sprintf "P emitted %s size=%d" (hex_of_string (canon_wire (str_of_bytes b))) (int_of_nat n)
+     | M.Rejected0 -> "P rejected received=0")
+  | [ "T"; code; chunks ] ->
+    let cs = if chunks = "-" then [] else List.map bytes_of_hex (String.split_on_char ',' chunks) in
+    let hs = [ (bytes_of_string "Connection", bytes_of_string "Keep-Alive") ] in
+    "T " ^ hex_of_string (canon_wire (str_of_bytes (M.render_stream (n_of_int (int_of_string code)) hs [] cs)))
+  | [ "Q"; m; path; query; cookies; body ] ->
+    let qs = kv_pairs query in
+    let qstr = match qs with
+      | [] -> []
+      | _ -> List.concat (List.mapi (fun i (k, v) -> (ascii_of_int (if i = 0 then 63 else 38)) :: k @ (ascii_of_int 61 :: v)) qs) in
+    let b = M.write_request (bytes_of_string method_str.(int_of_string m)) (bytes_of_string "HOST") (bytes_of_hex path) qstr (kv_pairs cookies) [] (bytes_of_hex body) in
+    let txt = str_of_bytes b in
+    let txt = Str.global_replace (Str.regexp "Host: HOST") "Host: HOST" txt in
+    "Q " ^ hex_of_string (canon_wire txt)
+  | _ -> "BADCASE"
+
 let () =
   let area = Sys.argv.(1) in
   let f = match area with
@@ -390,6 +439,7 @@ let () =
     | "cookie" -> cookie_case
     | "headers" -> header_case
     | "transport" -> transport_case
+    | "wire" -> wire_case
     | _ -> failwith ("unknown area " ^ area) in
   try
     while true do
